@@ -171,6 +171,20 @@ impl Client {
     pub fn verif_available(&self) -> io::Result<usize> {
         self.inner.available()
     }
+
+    /// True when this client has no helper thread / channel, i.e. `acquire()` hands out empty
+    /// `Acquired`s without limit (verification harness only).
+    pub fn verif_unlimited(&self) -> bool {
+        self.helper.is_none() || self.tx.is_none()
+    }
+}
+
+#[cfg(sccache_verif)]
+impl Acquired {
+    /// Whether this `Acquired` wraps a real token (verification harness only).
+    pub fn verif_has_token(&self) -> bool {
+        self._token.is_some()
+    }
 }
 
 #[cfg(sccache_verif)]
